@@ -74,8 +74,20 @@ impl StreamCase {
         // `create` takes `&self`: it must be a function of its argument.  On every other case the same `MlpgAdjust`
         // is first asked for a different duration vector (same state count, other frame counts), and the call under
         // test comes second (seeded change C05f: a mask memoised by the first call).
-        let decoy: Vec<usize> = durs.iter().enumerate().map(|(i, d)| if i % 2 == 0 { d + 1 + i % 3 } else { 1.max(d / 2) }).collect();
-        let with_decoy = durs.iter().sum::<usize>() % 2 == 1;
+        let total: usize = durs.iter().sum();
+        let mut decoy: Vec<usize> = durs.iter().enumerate().map(|(i, d)| if i % 2 == 0 { d + 1 + i % 3 } else { 1.max(d / 2) }).collect();
+        // … and on every fourth case the decoy has the SAME number of frames, differently distributed over the states (frames
+        // moved from the longest state to its neighbours): a cache keyed by the frame count would go stale (seeded change C11j)
+        if total % 4 == 3 && durs.len() >= 2 {
+            decoy = durs.clone();
+            let (k, _) = decoy.iter().enumerate().max_by_key(|(_, d)| **d).unwrap();
+            let mv = decoy[k] / 2;
+            decoy[k] -= mv;
+            let n = decoy.len();
+            decoy[(k + 1) % n] += mv - mv / 2;
+            decoy[(k + n - 1) % n] += mv / 2;
+        }
+        let with_decoy = total % 2 == 1;
         catch(std::panic::AssertUnwindSafe(move || {
             let adj = MlpgAdjust::new(gvw, thr, ms);
             if with_decoy {
@@ -155,6 +167,20 @@ pub fn random_stream(rng: &mut Rng, max_states: usize, msd: bool) -> StreamCase 
         .collect();
     let durs = (0..n).map(|_| if short { rng.range(1, 2) } else { rng.range(1, 8) }).collect();
     StreamCase { veclen, windows, stream, durs, thr: 0.5, gvw: 1.0, gv: None }
+}
+
+/// C11's own run of the stage-level class (MSD streams only): the mask of `MlpgAdjust::create` — voiced iff the state's weight
+/// exceeds the threshold, no-data on the unvoiced frames — on caller-built streams, with the decoy calls of `StreamCase::run`
+pub fn gen_mask_class(seed: u64, thorough: bool) {
+    let mut rng = Rng::new(seed ^ 0xc11_5a5a);
+    for _ in 0..(if thorough { 2000 } else { 120 }) {
+        let mut c = random_stream(&mut rng, 40, true);
+        c.thr = *rng.pick(&[0.5, 0.5, 0.2, 0.8, 0.0, 1.0]);
+        let mut line = String::from("mlpg");
+        c.push(&mut line);
+        push_traj(&mut line, &c.run());
+        println!("{}", line);
+    }
 }
 
 pub fn gen_c05(seed: u64, thorough: bool) {
